@@ -24,12 +24,15 @@ def params : Params :=
 /-- the source still has the shape the model was written from:
   all twelve methods and no other; `NewCache` refuses `size <= 0`; `Put` evicts when `Len() > size`;
   `Resize` clamps `diff < 0` and loops `i < diff`; the callback is handed the entry's key and stored
-  value on both paths (`Purge` and `removeElement`); `Remove` takes a string -/
+  value on both paths (`Purge` and `removeElement`); `Remove` takes a string.
+  The source text is alpha-normalised by the extractor (`_r` receiver, `_pN` N-th parameter, `_vN` the
+  locals a table mentions in order of declaration), so names chosen inside a function do not matter. -/
 def Valid (P : Params) : Prop :=
   P.methods = ["Cap", "Contains", "Get", "GetOldest", "Keys", "Len", "Peek", "Purge", "Put", "Remove",
     "RemoveOldest", "Resize"] ∧
-  P.cmpNew = ["size <= 0"] ∧ P.cmpPut = ["c.Len() > c.size"] ∧ P.cmpResize = ["diff < 0", "i < diff"] ∧
-  P.callbackCalls = ["Purge: k, v.Value.(*Entry).Value", "removeElement: entry.Key, entry.Value"] ∧
+  P.cmpNew = ["_p0 <= 0"] ∧ P.cmpPut = ["_r.Len() > _r.size"] ∧ P.cmpResize = ["_v0 < 0", "_v1 < _v0"] ∧
+  P.callbackCalls = ["Purge: _r.onEvicted(_v0, _v1.Value.(*Entry).Value)",
+    "removeElement: _r.onEvicted(_v0.Key, _v0.Value)"] ∧
   P.removeKeyType = "string"
 instance (P : Params) : Decidable (Valid P) := by unfold Valid; infer_instance
 
